@@ -39,6 +39,9 @@ why_missed = {
  "S153": "deeply nested values only through the raw entry points, never as an oversized decoder input; an abort while decoding was a C03 event only", "S155": "no run of 2^16 rejected inputs on one thread (needs the debug layer)",
  "S156": "clone_from only between records of equal signature length", "S161": "remove_insert was always given slice iterators (exact size hints)", "S162": "signers returned errors but never panicked",
  "S163": "Debug only without formatter flags and never nested in another value's pretty Debug", "S165": "NodeId == [u8; 32] only against the id's own bytes and single-byte changes",
+ "S167": "over-long port values were fixed constants, none congruent to the signed port modulo 65536", "S170": "custom keys came from a small pool without the keys other ENR users define (quic, quic6, eth, ...)",
+ "S172": "no near-limit initial record whose own key entry is in the 65-byte uncompressed form", "S177": "NOT CAUGHT: needs a signature scheme whose public key and signature together take < 30 bytes, so that a value of 256+ bytes fits into a record; the harness' custom scheme has 32-byte keys",
+ "S178": "the socket-setter sweep changed the address with every port; no record kept one address while only the port changed",
  "S77": "multi-byte characters only at one offset and length", "S78": "only 9 non-hex characters tried", "S80": "no back-to-back imports of permuted seeds", "S81": "no text-looking secrets", "S84": "no non-canonical small-order ed25519 encodings",
 }
 rows = []
@@ -48,7 +51,8 @@ for d in sorted(glob.glob(os.path.join(ROOT, "seeded", "S*", "meta.json"))):
     if fa.startswith("missed") and sid in why_missed and ":" not in fa:
         fa = "missed: " + why_missed[sid]
     caught = m.get("checks_to_run", [m["breaks_property"]])
-    rows.append("| %s | %s | %s | %s | %s |" % (m["id"], m["breaks_property"], m["needs_to_manifest"].replace("|", "/"), "/".join(caught) + " quick", fa))
+    now = "/".join(caught) + " quick" if not m.get("not_caught") else "NOT CAUGHT (%s)" % m["not_caught"]
+    rows.append("| %s | %s | %s | %s | %s |" % (m["id"], m["breaks_property"], m["needs_to_manifest"].replace("|", "/"), now, fa))
 hdr = """# Seeded changes and which check catches them
 
 Every change below was written by a fresh sub-agent that saw only the text of one property and a scratch worktree of the
